@@ -12,6 +12,7 @@ import (
 	"go.minekube.com/common/minecraft/component"
 	"go.minekube.com/common/minecraft/key"
 	"go.minekube.com/gate/pkg/edition/java/proto/packet/chat"
+	"go.minekube.com/gate/pkg/edition/java/proto/packet/tablist/playerinfo"
 	"go.minekube.com/gate/pkg/edition/java/proto/util"
 	"go.minekube.com/gate/pkg/edition/java/proxy/crypto"
 	"go.minekube.com/gate/pkg/gate/proto"
@@ -25,6 +26,9 @@ import (
 //   - command trees: DescribeTree.
 
 var tRootNode = reflect.TypeOf((*brigodier.RootCommandNode)(nil))
+
+// tActionSet is a set written as a slice (Velocity: EnumSet): compared without order.
+var tActionSet = reflect.TypeOf([]playerinfo.UpsertAction(nil))
 
 // Eq reports whether a and b are equal; why names the first difference.
 func Eq(a, b reflect.Value, protocol proto.Protocol) (ok bool, why string) {
@@ -91,6 +95,20 @@ func eq(a, b reflect.Value, pr proto.Protocol, path string) (bool, string) {
 		}
 		if x != y {
 			return false, fmt.Sprintf("%s: component %s vs %s", path, trunc(x), trunc(y))
+		}
+		return true, ""
+	case tActionSet:
+		seen := map[reflect.Type]int{}
+		for i := 0; i < a.Len(); i++ {
+			seen[a.Index(i).Elem().Type()] |= 1
+		}
+		for i := 0; i < b.Len(); i++ {
+			seen[b.Index(i).Elem().Type()] |= 2
+		}
+		for t, m := range seen {
+			if m != 3 {
+				return false, fmt.Sprintf("%s: action %s only on one side", path, t)
+			}
 		}
 		return true, ""
 	case tRootNode:
